@@ -36,6 +36,10 @@ from mc.models import bs_closed as B
 mp.mp.dps = 30
 FAMILIES = {}
 
+# torch imports sympy lazily (e.g. inside torch.broadcast_shapes); do it now, outside any watchdog
+import sympy  # noqa: E402,F401
+torch.broadcast_shapes((1,), (2, 1))
+
 
 def family(fn):
     FAMILIES[fn.__name__] = fn
@@ -55,13 +59,14 @@ _HUNG = []
 class watchdog:
     """Turns a search that does not stop into a _Hang exception.  The budget is CPU time of this
     process (ITIMER_VIRTUAL), so a loaded machine cannot fake a hang, and it is derived from the number
-    of iterations the model allows: 0.2 s + 4 ms per iteration and per unit of work (a healthy
-    iteration costs ~40 us on these tensor sizes).  After the first hang seen in this process the
+    of iterations the model allows: 2 s (room for one-off lazy imports inside torch - an interrupted
+    import would leave a half-initialised module behind) + 4 ms per iteration and per unit of work (a
+    healthy iteration costs ~40 us on these tensor sizes).  After the first hang seen in this process the
     remaining calls get at most 0.3 s, so that an implementation that never stops cannot make the check
     run much longer than usual."""
 
     def __init__(self, iterations, work=1.0):
-        budget = 0.2 + 0.004 * iterations * work
+        budget = 2.0 + 0.004 * iterations * work
         self.seconds = min(budget, 0.3) if _HUNG else budget
 
     def _handler(self, signum, frame):
